@@ -387,7 +387,7 @@ func (wp *Pool) reportSSHConnected(inst cloud.Instance) {
 	wp.mtx.Lock()
 	defer wp.mtx.Unlock()
 	wkr := wp.workers[inst.ID()]
-	if wkr.state != StateBooting || !wkr.firstSSHConnection.IsZero() {
+	if wkr == nil || wkr.state != StateBooting || !wkr.firstSSHConnection.IsZero() {
 		// the node is not in booting state (can happen if a-d-c is restarted) OR
 		// this is not the first SSH connection
 		return
